@@ -381,6 +381,21 @@ def _class_of(ctx, f, expr, node):
             a = d.ast
             if isinstance(a, ast.Assign) and isinstance(a.value, ast.Call) and isinstance(a.value.func, ast.Name):
                 return a.value.func.id
+    # self.<field>: the field is given a constructed object somewhere in the class (usually __init__)
+    if isinstance(expr, ast.Attribute) and isinstance(expr.value, ast.Name) and f.cls is not None \
+            and expr.value.id == f.self_name:
+        found = set()
+        for m in f.cls.methods.values():
+            for n in own_nodes(m.node):
+                if isinstance(n, ast.Assign) and len(n.targets) == 1 and isinstance(n.targets[0], ast.Attribute) \
+                        and n.targets[0].attr == expr.attr and isinstance(n.targets[0].value, ast.Name) \
+                        and n.targets[0].value.id == m.self_name:
+                    if isinstance(n.value, ast.Call) and isinstance(n.value.func, ast.Name):
+                        found.add(n.value.func.id)
+                    else:
+                        found.add(None)
+        if len(found) == 1 and None not in found:
+            return next(iter(found))
     return None
 
 
